@@ -119,6 +119,8 @@ func dkgRandom(args []string) int {
 	maxbc := fs.Int("maxbc", 3, "")
 	slack := fs.Int("slack", 1, "")
 	prefix := fs.String("prefix", "r", "")
+	grid := fs.Bool("grid", false, "systematic strategies of the first Byzantine participant instead of random scripts")
+	stride := fs.Int("stride", 1, "grid mode: take every stride-th strategy, offset by the seed")
 	out := fs.String("out", "", "")
 	fs.Parse(args)
 	ch := make(chan outLine, 64)
@@ -132,7 +134,11 @@ func dkgRandom(args []string) int {
 			defer wg.Done()
 			for i := range jobs {
 				cfg := dkgsim.RandomConfig{ID: fmt.Sprintf("%s-%d", *prefix, i), Proto: *proto, N: *n, T: *t, Dealer: *dealer,
-					Byz: parseInts(*byz), Seed: *seed*1000003 + int64(i), MaxBc: *maxbc, Slack: *slack}
+					Byz: parseInts(*byz), Seed: *seed*1000003 + int64(i), MaxBc: *maxbc, Slack: *slack, Grid: -1}
+				if *grid {
+					cfg.Grid = (i*(*stride) + int(*seed)%(*stride)) % (3 * dkgsim.GridStrategies)
+					cfg.Seed = cfg.Seed*5 + 1 // the other Byzantine participants follow the subtle random profile
+				}
 				r, s := dkgsim.RunRandom(cfg)
 				ch <- outLine{r, s}
 			}
